@@ -81,7 +81,7 @@ def run(tier: str, seed: int) -> CompResult:
                 cls = ma.local_class()
             else:
                 cls = ma.Outer.Nested
-            text = rng.choice(["boom", "a b", "x: y", "ünï", ""])
+            text = rng.choice(["boom", "a b", "x: y", "ünï", "", "boom", "a b", "bad \udcff text"])   # the last: not encodable as UTF-8
             as_instance = rng.random() < 0.7
             arg: Any = text
             if as_instance:
@@ -179,7 +179,9 @@ def run(tier: str, seed: int) -> CompResult:
                 out = f"ok {ms} cat={cat}"
                 # ---- C14 monitors (independent of the model)
                 shown = m2 if isinstance(m2, str) else str(m2)
-                carries = shown == orig_text or (cls.__name__ in shown and orig_text in shown)
+                # a text that cannot be encoded (lone surrogate) can only arrive escaped
+                orig_esc = orig_text.encode("utf-8", "backslashreplace").decode("utf-8")
+                carries = shown in (orig_text, orig_esc) or (cls.__name__ in shown and (orig_text in shown or orig_esc in shown))
                 if not carries:
                     res.violations.append(Violation("C14", "pure.warnings", f"warning text {orig_text!r} of {cls.__name__} arrived as {shown!r}",
                                                     "warning-text-lost", [line], {}))
